@@ -155,8 +155,10 @@ Definition same12 (s s' : tsys) : Prop :=
   t_A s' = t_A s /\ t_F s' = t_F s /\ t_clog s' = t_clog s /\ t_cver s' = t_cver s.
 
 Ltac tupd := simpl in *; repeat (match goal with
-  | H : context [upd (t_thr _) ?t _ ?u] |- _ => unfold upd in H; destruct (Nat.eqb_spec u t); subst
-  | |- context [upd (t_thr _) ?t _ ?u] => unfold upd; destruct (Nat.eqb_spec u t); subst
+  | H : context [upd (t_thr _) ?t _ ?u] |- _ =>
+    unfold upd in H; destruct (Nat.eqb_spec u t); [first [subst u | subst t]|]
+  | |- context [upd (t_thr _) ?t _ ?u] =>
+    unfold upd; destruct (Nat.eqb_spec u t); [first [subst u | subst t]|]
   end; simpl in * ).
 
 (* (a) a step that changes only the stepping thread, keeping what it holds *)
@@ -311,4 +313,525 @@ Proof.
     destruct (t_pc (t_thr s u)); simpl in *; try assumption.
     + destruct K as (K1 & K2 & K3 & K4 & K5). repeat split; try assumption; try lia.
     + destruct K as (K1 & K2 & K3 & K4 & K5). repeat split; try assumption; try lia.
+Qed.
+
+(* (e1) test-and-set on the free spinlock *)
+Lemma L_lock s s' t x' b :
+  TInv s -> t_pc (t_thr s t) = FLock b ->
+  shared s' (t_cap s) (t_alloc s) (t_cached s) (t_free s) (t_ptrs s) true (t_out s)
+         (t_dups s) (t_A s) (t_F s) (t_clog s) (t_cver s) ->
+  (forall u, t_thr s' u = upd (t_thr s) t x' u) ->
+  t_pc x' = (if t_lock s then FSpin1 b else FWrite b) -> TInv s'.
+Proof.
+  intros I Epc Hsh Et Hpc.
+  pose proof I as [C0 C1 C2 C3 C4 C5 C6 C7 C8 C9 C10 C11 C12 C13 C14].
+  unfold ringl, hold, kn in *.
+  assert (Hh : hold_of (t_ptrs s) (t_cap s) (t_F s) (t_pc x') = hold_of (t_ptrs s) (t_cap s) (t_F s) (t_pc (t_thr s t))).
+  { rewrite Hpc, Epc. destruct (t_lock s); reflexivity. }
+  assert (Hl0 : holds_lock (t_pc (t_thr s t)) = false) by (rewrite Epc; reflexivity).
+  tbuild s' Hsh Et; try assumption.
+  - intros u b0 Hu. tupd; [rewrite Hh in Hu|]; eapply C9; eauto.
+  - intros u v b0 Hu Hv. tupd; try reflexivity; try (rewrite Hh in * ); eapply C10; eauto.
+  - intros u v Hu Hv. tupd; try reflexivity; try (eapply C11; eauto; fail);
+      rewrite Hpc in *; destruct (t_lock s) eqn:EL; simpl in *; try discriminate;
+      match goal with H : holds_lock (t_pc (t_thr s ?z)) = true |- _ => rewrite (C12 eq_refl z) in H; discriminate end.
+  - intros L. discriminate.
+  - intros u. tupd; [|apply C13]. rewrite Hpc. destruct (t_lock s); exact Logic.I.
+Qed.
+
+(* (e2) clear of the free spinlock *)
+Lemma L_unlock s s' t x' :
+  TInv s -> t_pc (t_thr s t) = FUnlock ->
+  shared s' (t_cap s) (t_alloc s) (t_cached s) (t_free s) (t_ptrs s) false (t_out s)
+         (t_dups s) (t_A s) (t_F s) (t_clog s) (t_cver s) ->
+  (forall u, t_thr s' u = upd (t_thr s) t x' u) -> t_pc x' = TIdle -> TInv s'.
+Proof.
+  intros I Epc Hsh Et Hpc.
+  pose proof I as [C0 C1 C2 C3 C4 C5 C6 C7 C8 C9 C10 C11 C12 C13 C14].
+  unfold ringl, hold, kn in *.
+  assert (Hl0 : holds_lock (t_pc (t_thr s t)) = true) by (rewrite Epc; reflexivity).
+  tbuild s' Hsh Et; try assumption.
+  - intros u b0 Hu. tupd; [rewrite Hpc in Hu; discriminate|]. eapply C9; eauto.
+  - intros u v b0 Hu Hv. tupd; try reflexivity; try (rewrite Hpc in *; discriminate). eapply C10; eauto.
+  - intros u v Hu Hv. tupd; try reflexivity; try (rewrite Hpc in *; discriminate). eapply C11; eauto.
+  - intros _ u. tupd; [rewrite Hpc; reflexivity|].
+    destruct (holds_lock (t_pc (t_thr s u))) eqn:E; [|reflexivity]. exfalso. apply n. eapply C11; eauto.
+  - intros u. tupd; [rewrite Hpc; exact Logic.I|apply C13].
+Qed.
+
+(* (f) the lock holder writes the freed block into the vacant slot at free_idx *)
+Lemma L_write s s' t x' b :
+  TInv s -> t_pc (t_thr s t) = FWrite b ->
+  shared s' (t_cap s) (t_alloc s) (t_cached s) (t_free s) (upd (t_ptrs s) (t_free s) b) (t_lock s) (t_out s)
+         (t_dups s) (t_A s) (t_F s) (t_clog s) (t_cver s) ->
+  (forall u, t_thr s' u = upd (t_thr s) t x' u) ->
+  t_pc x' = FStore ((t_free s + 1) mod t_cap s) -> TInv s'.
+Proof.
+  intros I Epc Hsh Et Hpc.
+  assert (Hh : hold s (t_pc (t_thr s t)) = Some b) by (rewrite Epc; reflexivity).
+  pose proof (ring_not_full s t b I Hh) as HFA.
+  pose proof I as [C0 C1 C2 C3 C4 C5 C6 C7 C8 C9 C10 C11 C12 C13 C14].
+  unfold ringl, hold, kn in *. rewrite C2 in *.
+  assert (Hl0 : holds_lock (t_pc (t_thr s t)) = true) by (rewrite Epc; reflexivity).
+  assert (ER : ringl_of (upd (t_ptrs s) (t_F s mod t_cap s) b) (t_cap s) (t_A s) (t_F s) =
+               ringl_of (t_ptrs s) (t_cap s) (t_A s) (t_F s)) by (apply ringl_write; assumption).
+  assert (Hoth : forall u, u <> t ->
+            hold_of (upd (t_ptrs s) (t_F s mod t_cap s) b) (t_cap s) (t_F s) (t_pc (t_thr s u)) =
+            hold_of (t_ptrs s) (t_cap s) (t_F s) (t_pc (t_thr s u))).
+  { intros u Hu. destruct (t_pc (t_thr s u)) eqn:E; try reflexivity.
+    exfalso. apply Hu. apply C11; [rewrite E; reflexivity|assumption]. }
+  assert (Hme : hold_of (upd (t_ptrs s) (t_F s mod t_cap s) b) (t_cap s) (t_F s) (t_pc x') = Some b).
+  { rewrite Hpc. simpl. unfold upd. now rewrite Nat.eqb_refl. }
+  set (ptrs' := upd (t_ptrs s) (t_F s mod t_cap s) b) in *.
+  tbuild s' Hsh Et; try assumption; rewrite ?ER; try assumption; try reflexivity.
+  - intros u b0 Hu. tupd; [rewrite Hme in Hu; assert (b0 = b) by congruence; subst b0; eapply C9; eauto|].
+    rewrite Hoth in Hu by assumption. eapply C9; eauto.
+  - intros u v b0 Hu Hv. tupd; try reflexivity; rewrite ?Hme, ?Hoth in * by assumption.
+    + assert (b0 = b) by congruence. subst b0. symmetry. eapply C10; eauto.
+    + assert (b0 = b) by congruence. subst b0. eapply C10; eauto.
+    + eapply C10; eauto.
+  - intros u v Hu Hv. tupd; try reflexivity; try (rewrite Hpc in * ); simpl in *.
+    + symmetry. eapply C11; eauto.
+    + eapply C11; eauto.
+    + eapply C11; eauto.
+  - intros L u. rewrite (C12 L t) in Hl0. discriminate.
+  - intros u. tupd; [rewrite Hpc; simpl; now rewrite nmod_succ|].
+    pose proof (C13 u) as K. destruct (t_pc (t_thr s u)); simpl in *; try assumption.
+    destruct K as (K1 & K2 & K3 & K4 & K5). repeat split; try assumption.
+    intros E1 E2. rewrite (K4 E1 E2). unfold ptrs', upd.
+    destruct (Nat.eqb_spec e (t_F s mod t_cap s)) as [E|E]; [|reflexivity].
+    exfalso. apply (nmod_neq_range (t_cap s) (t_A s) (t_F s) C0); [lia|congruence].
+Qed.
+
+(* (g) the lock holder publishes the new free_idx: the written slot joins the ring *)
+Lemma L_store s s' t x' pos :
+  TInv s -> t_pc (t_thr s t) = FStore pos ->
+  shared s' (t_cap s) (t_alloc s) (t_cached s) pos (t_ptrs s) (t_lock s) (t_out s)
+         (t_dups s) (t_A s) (S (t_F s)) (t_clog s) (t_cver s) ->
+  (forall u, t_thr s' u = upd (t_thr s) t x' u) -> t_pc x' = FSeg3 -> TInv s'.
+Proof.
+  intros I Epc Hsh Et Hpc.
+  pose proof I as [C0 C1 C2 C3 C4 C5 C6 C7 C8 C9 C10 C11 C12 C13 C14].
+  unfold ringl, hold, kn in *.
+  set (b := t_ptrs s (t_F s mod t_cap s)) in *.
+  assert (Hh : hold_of (t_ptrs s) (t_cap s) (t_F s) (t_pc (t_thr s t)) = Some b) by (rewrite Epc; reflexivity).
+  destruct (C9 t b Hh) as (B1 & B2 & B3).
+  assert (Hpos : pos = (t_F s + 1) mod t_cap s) by (pose proof (C13 t) as K; rewrite Epc in K; exact K).
+  assert (Hl0 : holds_lock (t_pc (t_thr s t)) = true) by (rewrite Epc; reflexivity).
+  assert (ER : ringl_of (t_ptrs s) (t_cap s) (t_A s) (S (t_F s)) = ringl_of (t_ptrs s) (t_cap s) (t_A s) (t_F s) ++ [b]).
+  { apply ringl_free; [assumption|lia]. }
+  assert (Hoth : forall u, u <> t ->
+            hold_of (t_ptrs s) (t_cap s) (S (t_F s)) (t_pc (t_thr s u)) =
+            hold_of (t_ptrs s) (t_cap s) (t_F s) (t_pc (t_thr s u))).
+  { intros u Hu. destruct (t_pc (t_thr s u)) eqn:E; try reflexivity.
+    exfalso. apply Hu. apply C11; [rewrite E; reflexivity|assumption]. }
+  tbuild s' Hsh Et; try assumption; rewrite ?ER.
+  - rewrite Hpos. f_equal. lia.
+  - lia.
+  - destruct C4 as [K1 K2]. split; [assumption|lia].
+  - apply NoDup_app_one; assumption.
+  - intros b0. rewrite in_app_iff. simpl. intros [K|[K|[]]]; [now apply C6|subst; assumption].
+  - intros b0 K. destruct (C8 b0 K) as [K1 K2]. split; [assumption|]. rewrite in_app_iff. simpl.
+    intros [K3|[K3|[]]]; [contradiction|]. subst b0. contradiction.
+  - intros u b0 Hu. tupd; [rewrite Hpc in Hu; discriminate|]. rewrite Hoth in Hu by assumption.
+    destruct (C9 u b0 Hu) as (K1 & K2 & K3). repeat split; try assumption. rewrite in_app_iff. simpl.
+    intros [K|[K|[]]]; [contradiction|]. subst b0. apply n. eapply C10; eauto.
+  - intros u v b0 Hu Hv. tupd; try reflexivity; try (rewrite Hpc in *; discriminate).
+    rewrite Hoth in * by assumption. eapply C10; eauto.
+  - intros u v Hu Hv. tupd; try reflexivity; try (rewrite Hpc in * ); simpl in *.
+    + symmetry. eapply C11; eauto.
+    + eapply C11; eauto.
+    + eapply C11; eauto.
+  - intros L u. rewrite (C12 L t) in Hl0. discriminate.
+  - intros u. tupd; [rewrite Hpc; exact Logic.I|].
+    pose proof (C13 u) as K. destruct (t_pc (t_thr s u)) eqn:E; simpl in *; try assumption.
+    + destruct K as (K1 & K2 & K3 & K4 & K5). repeat split; try assumption; lia.
+    + exfalso. apply n. apply C11; [rewrite E; reflexivity|assumption].
+Qed.
+
+Lemma some_fst_inv {A B} (p : A * B) a b : Some p = Some (a, b) -> a = fst p.
+Proof. intros H; inversion H; reflexivity. Qed.
+
+Lemma nxt_t_cases sc : nxt_t sc = TFin \/ nxt_t sc = TYield.
+Proof. unfold nxt_t. destruct (nxt_is_fin sc); auto. Qed.
+
+Ltac sh12 := repeat split; reflexivity.
+Ltac l_thr I t := eapply L_thr with (t := t); [exact I | sh12 | intros ?u; reflexivity | | | ].
+
+Lemma segA_inv s t x e ve notes :
+  TInv s -> hold s (t_pc (t_thr s t)) = None -> holds_lock (t_pc (t_thr s t)) = false ->
+  TInv (fst (t_segA s t x e ve notes)).
+Proof.
+  intros I Hh Hl. unfold t_segA.
+  destruct (Nat.eqb_spec ((e + 1) mod t_cap s) (t_cached s)) as [E|E]; simpl fst.
+  - l_thr I t; simpl; try (symmetry; assumption). unfold kn; simpl. reflexivity.
+  - l_thr I t; simpl; try (symmetry; assumption). unfold kn; simpl. repeat split; auto.
+Qed.
+
+Lemma tstep_tinv P s t ch s' l : TInv s -> tstep P s t ch = Some (s', l) -> t_race s' = false -> TInv s'.
+Proof.
+  intros I Hs Hr. pose proof I as [C0 C1 C2 C3 C4 C5 C6 C7 C8 C9 C10 C11 C12 C13 C14].
+  unfold tstep in Hs. destruct (Nat.leb (t_n s) t); [discriminate|].
+  pose proof (C13 t) as Kt. unfold kn in Kt.
+  destruct (t_pc (t_thr s t)) eqn:Epc; try discriminate.
+  - (* TIdle *)
+    apply some_pair_inv in Hs as [<- _]. destruct (nxt_t_cases (t_script (t_thr s t))) as [E|E];
+      l_thr I t; simpl; rewrite ?E, ?Epc; try reflexivity; exact Logic.I.
+  - (* TYield *)
+    apply some_pair_inv in Hs as [<- _]. l_thr I t; simpl; rewrite ?Epc; try reflexivity; exact Logic.I.
+  - (* TBegin *)
+    destruct (t_script (t_thr s t)) as [|o r] eqn:Esc.
+    + apply some_pair_inv in Hs as [<- _]. l_thr I t; simpl; rewrite ?Epc; try reflexivity; exact Logic.I.
+    + destruct o as [|k|k].
+      * apply some_fst_inv in Hs. rewrite Hs. apply segA_inv; [assumption|rewrite Epc; reflexivity|rewrite Epc; reflexivity].
+      * destruct (pick_pos t (OpFree k) (t_out s)) as [j|] eqn:Ep; apply some_pair_inv in Hs as [<- _].
+        -- eapply L_pick with (t := t) (j := j); [exact I|eapply pick_pos_lt; eauto|sh12|intros u; reflexivity
+             |rewrite Epc; reflexivity|rewrite Epc; reflexivity|reflexivity].
+        -- destruct (nxt_t_cases r) as [E|E]; l_thr I t; simpl; rewrite ?E, ?Epc; try reflexivity; exact Logic.I.
+      * destruct (pick_pos t (OpFreeOwn k) (t_out s)) as [j|] eqn:Ep; apply some_pair_inv in Hs as [<- _].
+        -- eapply L_pick with (t := t) (j := j); [exact I|eapply pick_pos_lt; eauto|sh12|intros u; reflexivity
+             |rewrite Epc; reflexivity|rewrite Epc; reflexivity|reflexivity].
+        -- destruct (nxt_t_cases r) as [E|E]; l_thr I t; simpl; rewrite ?E, ?Epc; try reflexivity; exact Logic.I.
+  - (* TFin *)
+    apply some_pair_inv in Hs as [<- _]. l_thr I t; simpl; rewrite ?Epc; try reflexivity; exact Logic.I.
+  - (* ALoad *)
+    apply some_pair_inv in Hs as [<- _]. l_thr I t; simpl; rewrite ?Epc; try reflexivity.
+    unfold kn; simpl. repeat split; try lia; try assumption.
+    rewrite C2. symmetry. now apply nmod_add_cap.
+  - (* AAfter *)
+    destruct Kt as (K1 & K2 & K3 & K4 & K5).
+    assert (Evl : vl = t_A s).
+    { destruct (Nat.eqb_spec vl (t_A s)) as [E|E]; [assumption|]. exfalso.
+      destruct (Nat.eqb p v); apply some_pair_inv in Hs as [<- _];
+        cbn [t_race t_set_thr t_set_harness t_set_cached t_set_uncov t_set_alloc] in Hr;
+        cbn [negb] in Hr; rewrite Bool.orb_true_r in Hr; discriminate. }
+    specialize (K5 Evl).
+    destruct (Nat.eqb_spec p v) as [Epv|Epv]; apply some_pair_inv in Hs as [<- _].
+    + destruct (nxt_t_cases (t_script (t_thr s t))) as [E|E];
+        (eapply L_cached with (t := t) (v := v) (gf := gf);
+         [exact I|assumption|lia|sh12|intros u; reflexivity|rewrite Epc; reflexivity|rewrite Epc; reflexivity
+         |simpl; rewrite E; reflexivity|simpl; rewrite E; reflexivity|simpl; rewrite E; exact Logic.I]).
+    + eapply L_cached with (t := t) (v := v) (gf := gf);
+        [exact I|assumption|lia|sh12|intros u; reflexivity|rewrite Epc; reflexivity|rewrite Epc; reflexivity
+        |reflexivity|reflexivity|simpl; repeat split; auto].
+  - (* ACas *)
+    destruct Kt as (K1 & K2 & K3 & K4 & K5).
+    destruct (Nat.eqb_spec (t_alloc s) e) as [Ee|Ee].
+    + destruct (Nat.eqb ch 1).
+      * apply some_pair_inv in Hs as [<- _]. l_thr I t; simpl; rewrite ?Epc; try reflexivity; exact Logic.I.
+      * apply some_pair_inv in Hs as [<- _].
+        cbn [t_race t_set_thr t_set_harness t_set_cached t_set_uncov t_set_alloc] in Hr.
+        apply Bool.orb_false_iff in Hr as [Hr Hr3]. apply Bool.orb_false_iff in Hr as [Hr1 Hr2].
+        apply Bool.negb_false_iff, Nat.eqb_eq in Hr2, Hr3.
+        rewrite C1 in Ee. symmetry in Ee.
+        specialize (K4 Hr2 Ee). specialize (K5 Hr3).
+        destruct C4 as [Q1 Q2].
+        assert (Ep : p = (t_A s + 1) mod t_cap s) by (rewrite K1, Ee; now apply nmod_succ).
+        assert (Hcl : t_A s + 2 <= t_clog s).
+        { destruct (Nat.eq_dec (t_clog s) (t_A s + 1)) as [E|E]; [|lia]. exfalso. apply K5. rewrite Q1, Ep, E. reflexivity. }
+        eapply L_alloc with (t := t) (d := d);
+          [exact I|rewrite K4, Ee; reflexivity|assumption| |intros u; reflexivity|rewrite Epc; reflexivity|rewrite Epc; reflexivity|reflexivity].
+        rewrite <- Ep. sh12.
+    + apply some_pair_inv in Hs as [<- _]. l_thr I t; simpl; rewrite ?Epc; try reflexivity; exact Logic.I.
+  - (* ARetry *)
+    apply some_fst_inv in Hs. rewrite Hs.
+    apply segA_inv; [assumption|rewrite Epc; reflexivity|rewrite Epc; reflexivity].
+  - (* ARet *)
+    apply some_pair_inv in Hs as [<- _].
+    eapply L_ret with (t := t) (d := d); [exact I|assumption|sh12|intros u; reflexivity|apply nxt_t_cases].
+  - (* FLock *)
+    apply some_pair_inv in Hs as [<- _].
+    eapply L_lock with (t := t) (b := b); [exact I|assumption|sh12|intros u; reflexivity|reflexivity].
+  - (* FSpin1 *)
+    apply some_pair_inv in Hs as [<- _]. l_thr I t; simpl; rewrite ?Epc; try reflexivity; exact Logic.I.
+  - (* FYieldE *)
+    apply some_pair_inv in Hs as [<- _]. l_thr I t; simpl; rewrite ?Epc; try reflexivity; exact Logic.I.
+  - (* FSpin2 *)
+    apply some_pair_inv in Hs as [<- _]. l_thr I t; simpl; rewrite ?Epc; try reflexivity; exact Logic.I.
+  - (* FWrite *)
+    apply some_pair_inv in Hs as [<- _].
+    eapply L_write with (t := t) (b := b); [exact I|assumption|sh12|intros u; reflexivity|reflexivity].
+  - (* FStore *)
+    apply some_pair_inv in Hs as [<- _].
+    eapply L_store with (t := t) (pos := pos); [exact I|assumption|sh12|intros u; reflexivity|reflexivity].
+  - (* FSeg3 *)
+    apply some_pair_inv in Hs as [<- _]. l_thr I t; simpl; rewrite ?Epc; try reflexivity; exact Logic.I.
+  - (* FUnlock *)
+    apply some_pair_inv in Hs as [<- _].
+    eapply L_unlock with (t := t); [exact I|assumption|sh12|intros u; reflexivity|reflexivity].
+Qed.
+
+(* ---------------- the racy windows cannot be hit by a single allocator thread ---------------- *)
+Definition alloc_pc (p : tpc) : bool :=
+  match p with ALoad _ _ _ | AAfter _ _ _ _ _ _ | ACas _ _ _ _ _ _ | ARetry _ _ | ARet _ => true | _ => false end.
+(* the allocator's ghost registers are current (nobody else moves alloc_idx or cached_free_pos),
+   and its expected value is the current alloc_idx *)
+Definition sk (s : tsys) (p : tpc) : Prop :=
+  match p with
+  | ALoad e _ ve => ve = t_A s /\ e = t_alloc s
+  | AAfter e _ _ ve vl _ => ve = t_A s /\ vl = t_A s /\ e = t_alloc s
+  | ACas e _ _ ve va vc => ve = t_A s /\ va = t_A s /\ vc = t_cver s /\ e = t_alloc s
+  | ARetry e ve => ve = t_A s /\ e = t_alloc s
+  | _ => True
+  end.
+
+Record SK (a : nat) (s : tsys) : Prop := {
+  sk_oth : forall t, t <> a -> (t < t_n s -> has_alloc (t_script (t_thr s t)) = false) /\ alloc_pc (t_pc (t_thr s t)) = false;
+  sk_me : forall t, sk s (t_pc (t_thr s t));
+  sk_race : t_race s = false;
+}.
+
+Lemma has_alloc_tl' o r : has_alloc (o :: r) = false -> has_alloc r = false.
+Proof. unfold has_alloc; simpl. destruct o; simpl; intros; congruence. Qed.
+
+(* a step of a thread outside the allocation path leaves alloc_idx, cached_free_pos and the flag alone *)
+Lemma tstep_nonalloc P s t ch s' l :
+  tstep P s t ch = Some (s', l) -> alloc_pc (t_pc (t_thr s t)) = false ->
+  (forall r, t_pc (t_thr s t) = TBegin -> t_script (t_thr s t) <> OpAlloc :: r) ->
+  t_A s' = t_A s /\ t_cver s' = t_cver s /\ t_alloc s' = t_alloc s /\ t_race s' = t_race s /\ t_n s' = t_n s /\
+  t_badnull s' = t_badnull s /\
+  (forall u, u <> t -> t_thr s' u = t_thr s u) /\
+  alloc_pc (t_pc (t_thr s' t)) = false /\
+  (has_alloc (t_script (t_thr s t)) = false -> has_alloc (t_script (t_thr s' t)) = false).
+Proof.
+  unfold tstep. destruct (Nat.leb (t_n s) t); [discriminate|].
+  intros Hs Hp Hna.
+  destruct (t_pc (t_thr s t)) eqn:Epc; try discriminate;
+    try (apply some_pair_inv in Hs as [<- _]; simpl; rewrite upd_same; simpl;
+         repeat split; try assumption; try (intros u Hu; apply upd_other; assumption);
+         try (unfold nxt_t; destruct (nxt_is_fin _); reflexivity); auto; fail).
+  - (* TBegin *)
+    destruct (t_script (t_thr s t)) as [|o r] eqn:Esc.
+    + apply some_pair_inv in Hs as [<- _]; simpl; rewrite upd_same; simpl.
+      repeat split; try assumption; try (intros u Hu; apply upd_other; assumption); auto.
+    + pose proof (has_alloc_tl' o r) as Hr.
+      destruct o as [|k|k]; [exfalso; eapply Hna; eauto| |].
+      * destruct (pick_pos t (OpFree k) (t_out s)); apply some_pair_inv in Hs as [<- _]; simpl; rewrite upd_same; simpl;
+          repeat split; try assumption; try (intros u Hu; apply upd_other; assumption);
+          try (unfold nxt_t; destruct (nxt_is_fin _); reflexivity); auto.
+      * destruct (pick_pos t (OpFreeOwn k) (t_out s)); apply some_pair_inv in Hs as [<- _]; simpl; rewrite upd_same; simpl;
+          repeat split; try assumption; try (intros u Hu; apply upd_other; assumption);
+          try (unfold nxt_t; destruct (nxt_is_fin _); reflexivity); auto.
+  - (* FLock *)
+    apply some_pair_inv in Hs as [<- _]; simpl; rewrite upd_same; simpl.
+    repeat split; try assumption; try (intros u Hu; apply upd_other; assumption); auto. destruct (t_lock s); reflexivity.
+Qed.
+
+Lemma sk_nonalloc s p : alloc_pc p = false -> sk s p.
+Proof. destruct p; simpl; intros; try exact Logic.I; discriminate. Qed.
+Lemma sk_same s s' p : t_A s' = t_A s -> t_cver s' = t_cver s -> t_alloc s' = t_alloc s -> sk s p -> sk s' p.
+Proof. intros E1 E2 E3. destruct p; simpl; rewrite ?E1, ?E2, ?E3; auto. Qed.
+
+(* the allocator's own steps *)
+Lemma SK_me a s s' :
+  SK a s -> t_n s' = t_n s -> (forall u, u <> a -> t_thr s' u = t_thr s u) ->
+  t_race s' = false -> sk s' (t_pc (t_thr s' a)) -> SK a s'.
+Proof.
+  intros [O M R] En Eo Er Hk. constructor; [| |assumption].
+  - intros u Hu. rewrite En, (Eo u Hu). now apply O.
+  - intros u. destruct (Nat.eq_dec u a) as [->|Hu]; [assumption|].
+    rewrite (Eo u Hu). apply sk_nonalloc. now apply O.
+Qed.
+
+Lemma segA_sk a s x notes :
+  SK a s -> SK a (fst (t_segA s a x (t_alloc s) (t_A s) notes)).
+Proof.
+  intros K. unfold t_segA. destruct (Nat.eqb ((t_alloc s + 1) mod t_cap s) (t_cached s)); simpl fst;
+    (apply (SK_me a s); [assumption|reflexivity|intros u Hu; simpl; now apply upd_other|exact (sk_race a s K)
+                        |simpl; rewrite upd_same; simpl; auto]).
+Qed.
+
+Lemma tstep_sk a P s t ch s' l : SK a s -> tstep P s t ch = Some (s', l) -> SK a s'.
+Proof.
+  intros K Hs. pose proof K as [O M R].
+  assert (Hlt : t < t_n s).
+  { unfold tstep in Hs. destruct (Nat.leb_spec (t_n s) t); [discriminate|assumption]. }
+  destruct (Nat.eq_dec t a) as [->|Hta].
+  - (* the allocator *)
+    destruct (alloc_pc (t_pc (t_thr s a))) eqn:Ea.
+    + pose proof (M a) as Ma. unfold tstep in Hs. destruct (Nat.leb (t_n s) a); [discriminate|].
+      destruct (t_pc (t_thr s a)) eqn:Epc; try discriminate; simpl in Ma.
+      * (* ALoad *) destruct Ma as (-> & ->). apply some_pair_inv in Hs as [<- _].
+        apply (SK_me a s); [assumption|reflexivity|intros u Hu; simpl; now apply upd_other|exact R|simpl; rewrite upd_same; simpl; auto].
+      * (* AAfter *) destruct Ma as (-> & -> & ->).
+        destruct (Nat.eqb p v); apply some_pair_inv in Hs as [<- _];
+          (apply (SK_me a s); [assumption|reflexivity|intros u Hu; simpl; now apply upd_other
+            |simpl; rewrite R, Nat.eqb_refl; reflexivity|simpl; rewrite upd_same; simpl; auto]).
+        unfold nxt_t. destruct (nxt_is_fin _); exact Logic.I.
+      * (* ACas *) destruct Ma as (-> & -> & -> & ->). rewrite Nat.eqb_refl in Hs.
+        destruct (Nat.eqb ch 1); apply some_pair_inv in Hs as [<- _];
+          (apply (SK_me a s); [assumption|reflexivity|intros u Hu; simpl; now apply upd_other
+            |simpl; rewrite ?R, ?Nat.eqb_refl; reflexivity|simpl; rewrite upd_same; simpl; auto]).
+      * (* ARetry *) destruct Ma as (-> & ->). apply some_fst_inv in Hs. rewrite Hs. now apply segA_sk.
+      * (* ARet *) apply some_pair_inv in Hs as [<- _].
+        apply (SK_me a s); [assumption|reflexivity|intros u Hu; simpl; now apply upd_other|exact R|simpl; rewrite upd_same; simpl].
+        unfold nxt_t. destruct (nxt_is_fin _); exact Logic.I.
+    + destruct (t_pc (t_thr s a)) eqn:Epc; try discriminate;
+        try (destruct (tstep_nonalloc P s a ch s' l Hs ltac:(rewrite Epc; reflexivity) ltac:(intros r0 E0; rewrite Epc in E0; discriminate))
+               as (E1 & E2 & E3 & E4 & E5 & E6 & E7 & E8 & E9);
+             apply (SK_me a s); [assumption|assumption|assumption|congruence|apply sk_nonalloc; assumption]; fail).
+      (* TBegin *)
+      destruct (t_script (t_thr s a)) as [|o r] eqn:Esc;
+        [|destruct o as [|k|k]];
+        try (destruct (tstep_nonalloc P s a ch s' l Hs ltac:(rewrite Epc; reflexivity) ltac:(intros r0 E0; rewrite Esc; discriminate))
+               as (E1 & E2 & E3 & E4 & E5 & E6 & E7 & E8 & E9);
+             apply (SK_me a s); [assumption|assumption|assumption|congruence|apply sk_nonalloc; assumption]; fail).
+      unfold tstep in Hs. destruct (Nat.leb (t_n s) a); [discriminate|]. rewrite Epc, Esc in Hs.
+      apply some_fst_inv in Hs. rewrite Hs. now apply segA_sk.
+  - (* another thread: never on the allocation path *)
+    destruct (O t Hta) as [O1 O2]. specialize (O1 Hlt).
+    destruct (tstep_nonalloc P s t ch s' l Hs O2) as (E1 & E2 & E3 & E4 & E5 & E6 & E7 & E8 & E9).
+    { intros r E Esc. rewrite Esc in O1. unfold has_alloc in O1. simpl in O1. discriminate. }
+    constructor; [| |congruence].
+    + intros u Hu. rewrite E5. destruct (Nat.eq_dec u t) as [->|Hut]; [split; auto|].
+      rewrite (E7 u Hut). now apply O.
+    + intros u. destruct (Nat.eq_dec u t) as [->|Hut]; [apply sk_nonalloc; assumption|].
+      rewrite (E7 u Hut). apply (sk_same s); auto.
+Qed.
+
+(* ---------------- theorems ---------------- *)
+Lemma segA_race s t x e ve notes : t_race (fst (t_segA s t x e ve notes)) = t_race s.
+Proof. unfold t_segA. destruct (Nat.eqb _ _); reflexivity. Qed.
+Lemma segA_badnull s t x e ve notes : t_badnull (fst (t_segA s t x e ve notes)) = t_badnull s.
+Proof. unfold t_segA. destruct (Nat.eqb _ _); reflexivity. Qed.
+
+Lemma tstep_race_mono P s t ch s' l : tstep P s t ch = Some (s', l) -> t_race s' = false -> t_race s = false.
+Proof.
+  unfold tstep. destruct (Nat.leb (t_n s) t); [discriminate|].
+  destruct (t_pc (t_thr s t)); try discriminate;
+    repeat match goal with
+    | |- context [match ?x with _ => _ end] => destruct x eqn:?
+    end; intros H; try (apply some_fst_inv in H; rewrite H, segA_race; auto; fail);
+    apply some_pair_inv in H as [<- _]; simpl; intros Hr;
+    repeat (apply Bool.orb_false_iff in Hr as [Hr ?]); assumption.
+Qed.
+
+Lemma ts_run_tinv P cap n scripts sched : 0 < cap ->
+  let s := ts_run P cap n scripts sched in t_race s = false -> TInv s.
+Proof.
+  intros Hc. unfold ts_run.
+  apply (inv_exec tsys (tstep P) (fun s => t_race s = false -> TInv s)).
+  - intros s t c s' l IH Hs Hr. eapply tstep_tinv; eauto. apply IH. eapply tstep_race_mono; eauto.
+  - intros _. now apply tinit_inv.
+Qed.
+
+Definition single_allocator (a n : nat) (scripts : nat -> list op) : Prop :=
+  forall t, t <> a -> t < n -> has_alloc (scripts t) = false.
+
+Lemma ts_run_sk P cap n scripts sched a : single_allocator a n scripts -> SK a (ts_run P cap n scripts sched).
+Proof.
+  intros Hs. unfold ts_run. apply inv_exec.
+  - intros; eapply tstep_sk; eauto.
+  - constructor; simpl; [intros t Ht; split; [intros; now apply Hs|reflexivity] | intros; exact Logic.I | reflexivity].
+Qed.
+
+(* with fewer than two allocator threads there is one thread that does all the allocations *)
+Lemma count_allocators_single scripts n : count_allocators scripts n <= 1 -> exists a, single_allocator a n scripts.
+Proof.
+  induction n as [|n IH]; simpl; intros H.
+  - exists 0. intros t _ Ht. lia.
+  - destruct (has_alloc (scripts n)) eqn:E.
+    + exists n. intros t Ht Hlt. assert (Hc : count_allocators scripts n = 0) by lia.
+      assert (Hall : forall m, m <= n -> count_allocators scripts m = 0 -> forall u, u < m -> has_alloc (scripts u) = false).
+      { induction m as [|m IHm]; intros Hm H0 u Hu; [lia|]. simpl in H0.
+        destruct (has_alloc (scripts m)) eqn:Em; [simpl in H0; lia|].
+        destruct (Nat.eq_dec u m) as [->|]; [assumption|]. apply IHm; [lia|simpl in H0; lia|lia]. }
+      apply (Hall n); [lia|assumption|lia].
+    + destruct (IH ltac:(simpl in H; lia)) as [a Ha]. exists a. intros t Ht Hlt.
+      destruct (Nat.eq_dec t n) as [->|]; [assumption|]. apply Ha; [assumption|lia].
+Qed.
+
+(* F <= A: never more frees than allocations (the ring has at most cap entries) *)
+Lemma ring_len_le s : TInv s -> t_F s <= t_A s.
+Proof.
+  intros I. assert (Hinc : incl (ringl s) (seq 0 (t_cap s))).
+  { intros x Hx. apply in_seq. pose proof (ti_rlt s I x Hx). lia. }
+  pose proof (NoDup_incl_length (ti_rnd s I) Hinc) as Hle. rewrite seq_length in Hle.
+  unfold ringl in Hle. rewrite ringl_length in Hle. pose proof (ti_AG s I). lia.
+Qed.
+
+(* exhaustion is reported exactly: single allocator *)
+Lemma tstep_badnull a P s t ch s' l :
+  TInv s -> SK a s -> tstep P s t ch = Some (s', l) -> t_badnull s = 0 -> t_badnull s' = 0.
+Proof.
+  intros I K Hs Hb. pose proof (ring_len_le s I) as HFA.
+  pose proof (ti_kn s I t) as Kt. pose proof (sk_me a s K t) as Mt. unfold kn in Kt.
+  pose proof (ti_alloc s I) as C1. pose proof (ti_cap s I) as C0.
+  unfold tstep in Hs. destruct (Nat.leb (t_n s) t); [discriminate|].
+  destruct (t_pc (t_thr s t)) eqn:Epc; try discriminate;
+    try (repeat match type of Hs with
+         | context [match ?x with _ => _ end] => destruct x eqn:?
+         end; try discriminate;
+         first [ apply some_fst_inv in Hs; rewrite Hs, segA_badnull; assumption
+               | apply some_pair_inv in Hs as [<- _]; simpl; assumption ]; fail).
+  (* AAfter *)
+  simpl in Kt, Mt. destruct Kt as (K1 & K2 & K3 & K4 & K5). destruct Mt as (-> & -> & ->).
+  specialize (K5 eq_refl).
+  destruct (Nat.eqb_spec p v) as [Epv|Epv]; apply some_pair_inv in Hs as [<- _]; simpl; [|assumption].
+  destruct (Nat.eqb_spec (t_A s + 1) gf) as [E|E]; [assumption|]. exfalso.
+  apply (nmod_neq_range (t_cap s) gf (t_A s + 1) C0); [lia|].
+  rewrite <- K2, <- Epv, K1, C1. now apply nmod_succ.
+Qed.
+
+Record TsOk (cap : nat) (s : tsys) : Prop := {
+  ok_dups : t_dups s = 0;                       (* no block returned while the harness map holds it *)
+  ok_badnull : t_badnull s = 0;                 (* NULL only with exactly cap-1 blocks unavailable at the load of free_idx *)
+  ok_race : t_race s = false;
+  ok_distinct : NoDup (map fst (t_out s));      (* outstanding blocks pairwise distinct *)
+  ok_count : t_F s <= t_A s /\ t_A s < t_F s + cap;   (* between 0 and cap-1 blocks are out of the ring *)
+}.
+
+Theorem ts_single_allocator_ok_all P cap n scripts a sched :
+  0 < cap -> single_allocator a n scripts -> TsOk cap (ts_run P cap n scripts sched).
+Proof.
+  intros Hc Hs.
+  assert (H : let s := ts_run P cap n scripts sched in TInv s /\ SK a s /\ t_badnull s = 0 /\ t_cap s = cap).
+  { unfold ts_run. apply (inv_exec tsys (tstep P) (fun s => TInv s /\ SK a s /\ t_badnull s = 0 /\ t_cap s = cap)).
+    - intros s t c s' l (I & K & B & C) Hst.
+      pose proof (tstep_sk a P s t c s' l K Hst) as K'.
+      split; [eapply tstep_tinv; eauto; apply (sk_race a s' K')|]. split; [assumption|].
+      split; [eapply tstep_badnull; eauto|].
+      pose proof (ts_run_tinv) as _. clear -Hst C. unfold tstep in Hst.
+      destruct (Nat.leb (t_n s) t); [discriminate|].
+      destruct (t_pc (t_thr s t)); try discriminate;
+        repeat match type of Hst with
+        | context [match ?x with _ => _ end] => destruct x eqn:?
+        end; try discriminate;
+        first [ apply some_fst_inv in Hst; rewrite Hst; unfold t_segA; destruct (Nat.eqb _ _); simpl; assumption
+              | apply some_pair_inv in Hst as [<- _]; simpl; assumption ].
+    - split; [now apply tinit_inv|]. split; [|split; reflexivity].
+      constructor; simpl; [intros t Ht; split; [intros; now apply Hs|reflexivity] | intros; exact Logic.I | reflexivity]. }
+  destruct H as (I & K & B & C). constructor.
+  - apply (ti_dups _ I).
+  - assumption.
+  - apply (sk_race _ _ K).
+  - apply (ti_ond _ I).
+  - split; [now apply ring_len_le|]. pose proof (ti_AG _ I) as G. rewrite C in G. exact G.
+Qed.
+
+(* many allocators: outside the known class the property holds *)
+Theorem ts_no_double_handout_partial_all P cap n scripts sched :
+  0 < cap ->
+  let s := ts_run P cap n scripts sched in
+  in_known_class scripts n s = false -> t_dups s = 0 /\ NoDup (map fst (t_out s)).
+Proof.
+  intros Hc s Hk.
+  assert (Hr : t_race s = false).
+  { unfold in_known_class in Hk. apply Bool.andb_false_iff in Hk as [Hk|Hk]; [|assumption].
+    apply Nat.leb_gt in Hk. destruct (count_allocators_single scripts n ltac:(lia)) as [a Ha].
+    apply (sk_race a). now apply ts_run_sk. }
+  pose proof (ts_run_tinv P cap n scripts sched Hc Hr) as I. fold s in I.
+  split; [apply (ti_dups _ I)|apply (ti_ond _ I)].
+Qed.
+
+(* non-vacuity: a single allocator with a concurrent freer on capacity 2: block 0 is allocated, the second
+   allocation is refused (exactly cap-1 = 1 block out), thread 1 frees block 0, the third allocation is
+   served with block 1 *)
+Example ts_single_nonvacuous :
+  let scripts := fun t => match t with 0 => [OpAlloc; OpAlloc; OpAlloc] | 1 => [OpFree 0] | _ => [] end in
+  let s := ts_run any_params 2 2 scripts (repeat (0, 0) 9 ++ repeat (1, 0) 12 ++ repeat (0, 0) 8) in
+  single_allocator 0 2 scripts /\ t_A s = 2 /\ t_F s = 1 /\ t_out s = [(1, 0)] /\ t_dups s = 0 /\ t_badnull s = 0.
+Proof.
+  split; [intros t Ht Hlt; destruct t as [|[|t]]; [contradiction|reflexivity|lia]|].
+  vm_compute. repeat split; reflexivity.
 Qed.
